@@ -95,8 +95,37 @@ pub fn plural_source(r: &mut Rng) -> String {
     print_program(&mut Layout::plain(), &p)
 }
 
-pub fn generated_sources(r: &mut Rng, n: usize) -> Vec<(String, String)> {
+/// Every operator of the language over constant multi-asset operands (four asset classes under four policies), in
+/// every position an amount can stand in: whatever lowering does with a constant - leave it, fold it - must come out
+/// the same way every time.
+pub fn constant_sources() -> Vec<(String, String)> {
+    let defs = "party Sender;\nparty Receiver;\nasset Gold = 0x11111111111111111111111111111111111111111111111111111111.\"GOLD\";\nasset Silver = 0x22222222222222222222222222222222222222222222222222222222.\"SILVER\";\nasset Bronze = 0x33333333333333333333333333333333333333333333333333333333.\"BRONZE\";\nasset Iron = 0x44444444444444444444444444444444444444444444444444444444.\"IRON\";\n\n";
+    let exprs = [
+        "Gold(1) + Silver(2) + Bronze(3) + Iron(4)",
+        "!(Gold(1) + Silver(2) + Bronze(3) + Iron(4))",
+        "Gold(9) + Silver(9) + Bronze(9) + Iron(9) - Gold(1) - Silver(2) - Bronze(3)",
+        "!(!(Gold(1) + Silver(2)) + !(Bronze(3) + Iron(4)))",
+        "Ada(2000000) + Gold(1) + Silver(2) + Bronze(3) + Iron(4)",
+        "AnyAsset(0x11111111111111111111111111111111111111111111111111111111, \"A\", 1) + AnyAsset(0x22222222222222222222222222222222222222222222222222222222, \"B\", 2) + AnyAsset(0x33333333333333333333333333333333333333333333333333333333, \"C\", 3) - AnyAsset(0x44444444444444444444444444444444444444444444444444444444, \"D\", 4)",
+    ];
     let mut out = vec![];
+    for (k, e) in exprs.iter().enumerate() {
+        for place in 0..4 {
+            let (min_amount, mint, burn, pay) = match place {
+                0 => (format!("{e} + fees"), String::new(), String::new(), "Ada(quantity)".to_string()),
+                1 => ("Ada(quantity) + fees".to_string(), format!("    mint {{\n        amount: {e},\n        redeemer: (),\n    }}\n"), String::new(), "Ada(quantity)".to_string()),
+                2 => ("Ada(quantity) + fees".to_string(), String::new(), format!("    burn {{\n        amount: {e},\n        redeemer: (),\n    }}\n"), "Ada(quantity)".to_string()),
+                _ => ("Ada(quantity) + fees".to_string(), String::new(), String::new(), format!("Ada(quantity) + {e}")),
+            };
+            let src = format!("{defs}tx t(quantity: Int) {{\n    input source {{\n        from: Sender,\n        min_amount: {min_amount},\n    }}\n{mint}{burn}    output {{\n        to: Receiver,\n        amount: {pay},\n    }}\n    output {{\n        to: Sender,\n        amount: source - Ada(quantity) - fees,\n    }}\n}}\n");
+            out.push((format!("gen-constants-{k}-{place}"), src));
+        }
+    }
+    out
+}
+
+pub fn generated_sources(r: &mut Rng, n: usize) -> Vec<(String, String)> {
+    let mut out = constant_sources();
     for k in 0..n {
         if k % 2 == 1 {
             out.push((format!("gen{k}-plural"), plural_source(r)));
